@@ -7,6 +7,7 @@ import (
 	"fmt"
 	"hash/crc32"
 	"io"
+	"math"
 
 	"github.com/klauspost/compress/zstd"
 	"github.com/pierrec/lz4/v4"
@@ -442,7 +443,13 @@ func loadChunk(l *Lexer, recordLen uint64) error {
 			return ErrChunkTooLarge
 		}
 		if uint64(len(l.uncompressedChunk)) < uncompressedSize {
-			l.uncompressedChunk, err = makeSafe(uncompressedSize * 2)
+			// grow to twice the size to amortize allocations, unless that exceeds
+			// what makeSafe accepts (or overflows)
+			allocSize := uncompressedSize
+			if uncompressedSize < math.MaxInt32/2 {
+				allocSize = uncompressedSize * 2
+			}
+			l.uncompressedChunk, err = makeSafe(allocSize)
 			if err != nil {
 				return fmt.Errorf("failed to allocate chunk buffer: %w", err)
 			}
